@@ -25,9 +25,9 @@ RULE = ('Generated experiment frames (1-8 geos per group, 12-70 dates, unique / 
 ASSUMPTIONS = ['the date is a column of the frame (the method selects it by name)',
                'frames have >= 12 dates (the correlation test needs >= 4 observations)']
 EXHAUSTIVE = {'quick': False, 'thorough': False}
-MINIMA = {'quick': {'categorical_column_cases': 30, 'longer_third_arm_with_removed_date': 10, 'refits': 80, 'returned_frame_edits': 150, 'fits_ok': 300, 'removed_geo_cases': 40, 'removed_date_cases': 40, 'permutation_pairs': 300,
+MINIMA = {'quick': {'missing_test_period_responses': 20, 'target_differs_from_key_response': 25, 'categorical_column_cases': 30, 'longer_third_arm_with_removed_date': 10, 'refits': 80, 'returned_frame_edits': 150, 'fits_ok': 300, 'removed_geo_cases': 40, 'removed_date_cases': 40, 'permutation_pairs': 300,
                     'nonunique_index_cases': 80, 'distinct_nontrivial': 100},
-          'thorough': {'categorical_column_cases': 400, 'longer_third_arm_with_removed_date': 150, 'refits': 1200, 'returned_frame_edits': 2000, 'fits_ok': 5000, 'removed_geo_cases': 600, 'removed_date_cases': 600, 'permutation_pairs': 5000,
+          'thorough': {'missing_test_period_responses': 250, 'target_differs_from_key_response': 300, 'categorical_column_cases': 400, 'longer_third_arm_with_removed_date': 150, 'refits': 1200, 'returned_frame_edits': 2000, 'fits_ok': 5000, 'removed_geo_cases': 600, 'removed_date_cases': 600, 'permutation_pairs': 5000,
                        'nonunique_index_cases': 1200, 'distinct_nontrivial': 1500}}
 N = {'quick': 480, 'thorough': 7000}
 CASE_TIMEOUT = {'quick': 180, 'thorough': 600}
@@ -163,9 +163,27 @@ def run_case(spec):
     return {'nontrivial': nontrivial, 'fp': util.fp(desc), 'classes': cls, 'counters': dict(counters),
             'violations': violations[:6], 'sample': desc}
 
+  if r.random() < 0.2:
+    # a few responses of experiment geos are missing during the test / cooldown period
+    cand = frame.index[(frame[names['period']].astype(int) != labels['pre'])
+                       & frame[names['group']].isin([labels['control'], labels['treatment']])]
+    if len(cand) and frame.index.is_unique:
+      for lab in r.sample(list(cand), min(len(cand), r.randrange(1, 4))):
+        frame.loc[lab, names['response']] = float('nan')
+      counters['missing_test_period_responses'] += 1
+      desc['missing_test_period_responses'] = True
+  alt_target = bool(kwargs) and r.random() < 0.35
+  if alt_target:
+    # the frame carries a second metric; the caller names it as `target` while key_response still names the first
+    frame['alt_metric'] = frame[names['response']] * 0.37 + 5.0
+    counters['target_differs_from_key_response'] += 1
+    desc['alt_target'] = True
   before = frame.copy(deep=True)
   d = mod.TBRDiagnostics()
   target = None if (not kwargs or r.random() < 0.5) else names['response']
+  if alt_target:
+    target = 'alt_metric'
+  tcol = target or names['response']
   if r.random() < 0.3:
     # one diagnostics object is used for two experiments in a row: results must be those of the last fit only
     r2, g2 = util.rngs(PROP, spec['seed'], spec['idx'], salt=1)
@@ -228,7 +246,9 @@ def run_case(spec):
   dates = sorted(set(dt for dt, grp in zip(want[names['date']], want[names['group']]) if grp in (labels['control'], labels['treatment'])))
   xs = {dt: 0.0 for dt in dates}
   ys = {dt: 0.0 for dt in dates}
-  for dt, grp, v in zip(want[names['date']], want[names['group']], want[names['response']]):
+  for dt, grp, v in zip(want[names['date']], want[names['group']], want[tcol]):
+    if v != v:
+      continue              # a missing response contributes nothing to the total
     if grp == labels['control']:
       xs[dt] += v
     elif grp == labels['treatment']:
